@@ -76,7 +76,7 @@ def pat(rng, depth=1, meta=0.4, notation=0.3, syms=SYMS):
     return repo.P().Symbol(rng.choice(syms))
 
 
-def random_module(rng: random.Random, max_claims=6, with_imports=True, syms=SYMS, pool_rounds=None, static_instantiate=0.0) -> Built:
+def random_module(rng: random.Random, max_claims=6, with_imports=True, syms=SYMS, pool_rounds=None, static_instantiate=0.04) -> Built:
     PR = repo.mod('proof')
     P = repo.P()
     Prop = repo.mod('proofs.propositional').Propositional
